@@ -80,7 +80,11 @@ def check(ctx, xs, d, missing=(), api=False, known=None):
     m = ctx.driver().call("sections.eval", xs=[rj(v) for v in xs], dict=secgen.dict_to_json(d),
                           present=[k in present_keys for k in keys])
     if (verdict == "ok") != (m["stage"] == "ok"):
-        ctx.mismatch("Sections.validate", case, m["stage"], verdict)
+        if verdict == "ok" and m["stage"] == "overlap" and secgen.usable(xs, d, present_keys)[0]:
+            # the model carries the recorded defect C16-bounds-overlap-refused; a source that accepts this usable definition is right
+            ctx.count("usable definition with overlapping bounds accepted (recorded defect absent in this source)")
+        else:
+            ctx.mismatch("Sections.validate", case, m["stage"], verdict)
     elif verdict != m["stage"]:
         ctx.count("stage-differs(not compared)")
     judge(ctx, case, xs, d, present_keys, verdict, "validate_sections", known)
@@ -88,12 +92,12 @@ def check(ctx, xs, d, missing=(), api=False, known=None):
         check_rows(ctx, case, xs, d, present_keys, m)
     if api:
         v2 = api_calibrate(xs, d, present_keys)
-        if (v2 == "ok") != (m["stage"] == "ok"):
+        if (v2 == "ok") != (m["stage"] == "ok") and not (v2 == "ok" and m["stage"] == "overlap" and secgen.usable(xs, d, present_keys)[0]):
             ctx.mismatch("Sections.validate~calibrate_single_ended", case, m["stage"], v2)
         judge(ctx, case, xs, d, present_keys, v2, "calibrate_single_ended", known)
         if not missing:
             v3 = api_variance(xs, d)
-            if (v3 == "ok") != (m["stage"] == "ok"):
+            if (v3 == "ok") != (m["stage"] == "ok") and not (v3 == "ok" and m["stage"] == "overlap" and secgen.usable(xs, d, keys)[0]):
                 ctx.mismatch("Sections.validate~variance_stokes_constant", case, m["stage"], v3)
             judge(ctx, case, xs, d, keys, v3, "variance_stokes_constant", known)
     nst = sum(len(v) for _, v in d)
